@@ -926,15 +926,9 @@ void Run::cycleDetected(const std::vector<Rule*>& items) {
   // C07.1 well-formedness
   std::string why;
   if (items.empty()) {
-    auto tm = mem.find(targetKey);
-    if (tm != mem.end() && tm->second.validatedIn == buildNo) {
-      // KNOWN FINDING C07.K1 (known_findings.json): the requested key itself is already complete and the cycle is only
-      // reachable through a dependency that a completed task reported as discovered; the engine searches for the
-      // cycle from the requested key, finds nothing and reports an empty list.
-      ctr()["known:C07.K1"]++;
-    } else {
-      why = "empty cycle list";
-    }
+    // (this was known finding C07.K1 until fix dbafe30 in /repo: requested key already complete, cycle reachable only through a
+    // dependency that a completed task reported as discovered)
+    why = "empty cycle list";
   } else if (cycleKeys[0] != targetKey) why = "list does not start at the requested key";
   else {
     bool repeats = false;
